@@ -48,7 +48,7 @@ EXPLANATION = (
     "request_client_cert covers every rule with require_cert or an allow-list. TLS delivery of "
     "the certificate is trusted. "
     "(A3, prefix) the rule prefix reaches CertificateAuthPathRule as a plain read of the configured key. (A6) the URL handed to middleware carries the handler's path (C19.N1-N3). (A8) the fingerprint function is sha256 over DER, untruncated and pure."
-    ' (A11) no method of ServerConfig rewrites certificate_auth_* / require_client_cert (carrier rule). (A12) CertificateAuthConfig defines no __len__/__bool__ while start_server tests it for truthiness.'
+    ' (A11) no method of ServerConfig rewrites certificate_auth_* / require_client_cert (carrier rule). (A12) CertificateAuthConfig defines no __len__/__bool__ while start_server tests it for truthiness. (A13) the path_rules handed to CertificateAuthConfig hold one rule per configured entry in the configured order (unfiltered loop with one append, or unfiltered comprehension).'
 )
 
 MW = "server.middleware"
